@@ -26,4 +26,27 @@ PROPS = {
         "theorems": ["offset_exact_or_overflow", "durationSince_exact_or_overflow", "ext_eq_by_value"],
         "assumptions": ["extension values are read from the Debug form of the private structs (Decimal{value}, IPAddr{addr,prefix}, DateTime{epoch}, Duration{ms})"],
     },
+    "C19": {
+        "streams": [("c19", 2000, 100000), ("c19h", 500, 20000), ("c19cli", 200, 5000)],
+        "cli": True,   # ./check (re)builds /repo's cedar-policy-cli into harness/target/cli before running the streams
+        "definitional": False,
+        "rule": "c19: stateless ffi::is_authorized (typed, _json, _json_str) vs Authorizer::is_authorized on API-parsed inputs, per case validate_request on and off, "
+                "policies as one text | array | map id->text | EST JSON, templates + links, schema none | JSON | Cedar, conformant and 6 kinds of non-conformant "
+                "requests, 5 kinds of corrupted policy documents; every 4th case also ffi validate / check_parse_{policy_set,schema,entities,context} / format / "
+                "policy,template,schema conversions vs the API (converted documents compared after re-parsing). c19h: histories of 1-10 preparse_policy_set / "
+                "preparse_schema (30% invalid documents, 2-3 + 2 names, re-registration) / stateful_is_authorized calls; each stateful answer vs the stateless FFI "
+                "and the API on the latest successfully registered documents, and the whole history vs the Lean model (used document tags read off probe "
+                "policies' erroring ids). c19cli: the cedar binary built from /repo: authorize (cedar|json policies, links file, schema cedar|json, request-json|flags, "
+                "request-validation on/off, -v reasons), validate, check-parse, translate-policy, translate-schema, format: exit status + printed decision/output vs API. "
+                "non-trivial = successful authorizations (c19, distinct by policies+context+flag), histories with a stateful read after a re-registration or a "
+                "failed preparse over an existing entry (c19h), every CLI run (c19cli)",
+        "theorems": ["cache_refines_latest", "every_reply_refines_latest", "failed_preparse_changes_nothing", "reregistration_overwrites",
+                     "stateful_calls_change_nothing", "exit_code_table", "authorize_exit_reflects_response", "validate_exit_table"],
+        "assumptions": ["the theorems are about the cache/lookup layer with the two document parsers and the common authorization tail as opaque parameters; "
+                        "agreement of input assembly (policy-id assignment, template links, schema-directed parsing, request validation, validation error ids, "
+                        "formatting, conversions) with the Rust API is checked by the differential run only",
+                        "cedar-wasm glue (wasm-bindgen/tsify wrappers) is not executable here; the Rust functions it wraps are what is run",
+                        "the caches are thread-local: histories are single-threaded, one fresh name prefix per history"],
+        "trusted": ["/repo's cedar-policy-cli built with default features (no partial-eval/tpe: exit code 4 'Unknown' is in the table but not exercised)"],
+    },
 }
